@@ -82,6 +82,21 @@ Proof.
   - destruct H as [H|H]; [auto|]. destruct (IH _ H); auto.
 Qed.
 
+Lemma aget_aset_same (l : list fid) i x : 0 <= i < Z.of_nat (length l) -> aget (aset l i x) i = x.
+Proof.
+  intros Hi. unfold aget, aset. rewrite nth_aset_nat, Nat.eqb_refl.
+  destruct (Nat.ltb_spec (Z.to_nat i) (length l)); [reflexivity|lia].
+Qed.
+
+Lemma aget_aset_other (l : list fid) i j x : 0 <= i -> 0 <= j -> i <> j -> aget (aset l i x) j = aget l j.
+Proof.
+  intros Hi Hj Hne. unfold aget, aset. rewrite nth_aset_nat.
+  destruct (Nat.eqb_spec (Z.to_nat j) (Z.to_nat i)); [lia|reflexivity].
+Qed.
+
+Lemma aset_length (l : list fid) i x : length (aset l i x) = length l.
+Proof. apply aset_nat_length. Qed.
+
 Lemma firstn_removelast (l : list fid) : firstn (length l - 1) l = removelast l.
 Proof. rewrite removelast_firstn_len. f_equal. lia. Qed.
 
@@ -313,7 +328,7 @@ Ltac obj_step :=
   end.
 
 Ltac obj_run :=
-  repeat first [ obj_step | progress cbv beta zeta | progress go_unwrap
+  repeat first [ obj_step | progress cbv beta iota zeta | progress go_unwrap
                | progress unfold before | progress cbn [s_arr s_off s_len s_cap] ].
 
 (* the end of a run: [post (ret v H) Q] *)
@@ -341,5 +356,5 @@ Lemma bind_load_panic {B} s i (k : Z -> M B) h : ~ (0 <= i < s_len s) -> bind (l
 Proof. intros H. unfold bind. rewrite load_panic by exact H. reflexivity. Qed.
 
 Ltac panic_run :=
-  repeat first [ rewrite bind_load_panic by rng | obj_step | progress cbv beta zeta | progress go_unwrap ].
+  repeat first [ rewrite bind_load_panic by rng | obj_step | progress cbv beta iota zeta | progress go_unwrap ].
 
